@@ -15,7 +15,8 @@ ASSUMPTIONS = [
     "and on every reported violation",
 ]
 SPEC = {
-    'quick': [('K7', 'lend', 4),
+    'quick': [('K22', 'lend', 4),
+              ('K7', 'lend', 4),
               ('K1', 'lend', 4),
               ('K15', 'lend', 4),
               ('K12', 'lend', 4),
